@@ -329,6 +329,7 @@ type TLCOpts struct {
 	Coverage bool
 	Extra    map[string]string // extra files (name -> content) written to the run dir
 	Env      []string
+	OnTable  func(line []byte) // called for every "TABLE" line
 	OnBeh    func(line []byte) // called for every "BEH" line (JSON payload, unescaped), possibly concurrently? no: sequentially
 	DFS      bool
 	Constants string
@@ -417,7 +418,11 @@ func (c *Ctx) runTLC(o TLCOpts) *TLCResult {
 	for {
 		line, err := readLine(rd)
 		if len(line) > 0 {
-			if bytesHasPrefix(line, `<<"BEH", "`) {
+			if bytesHasPrefix(line, `<<"TABLE", "`) {
+				if o.OnTable != nil {
+					o.OnTable(unescapeTLA(line[len(`<<"TABLE", "`) : len(line)-len(`">>`)]))
+				}
+			} else if bytesHasPrefix(line, `<<"BEH", "`) {
 				res.Behaviours++
 				if o.OnBeh != nil {
 					o.OnBeh(unescapeTLA(line[len(`<<"BEH", "`) : len(line)-len(`">>`)]))
@@ -491,6 +496,11 @@ func (c *Ctx) runTLC(o TLCOpts) *TLCResult {
 		os.RemoveAll(dir)
 	}
 	return res
+}
+
+func (c *Ctx) runTLCTable(o TLCOpts, f func(line []byte)) *TLCResult {
+	o.OnTable = f
+	return c.runTLC(o)
 }
 
 func cfgNames(cfg string) (inv, props []string) {
